@@ -35,7 +35,7 @@ CLAIMED = {
             "DESIGN.md §3 C10"),
     "C17": ("fault_enumeration",
             "Each maintenance operation (id move after failover through RedisOutput.SetRunId, checkpoint rename through UpdateCheckpoint, stale-checkpoint GC) is run on a drawn initial bookkeeping state, its target requests are counted, and it is then crashed after EVERY prefix of those requests for several rotations of the DB iteration order; after each prefix the tool's own start path must find a position not smaller than, and in the same DB as, the one held before; GC must spare the newest entry of a live id. Initial states are sampled; crash prefixes are enumerated per state.",
-            "Trusted: Redis double (hash/SELECT/INFO keyspace semantics), the documented checkpoint layout used by the 'before' reader. The cmd-level GC driver loop is transcribed in the harness; bisync namespace migration is not covered by this check yet.",
+            "Trusted: Redis double (hash/SELECT/INFO keyspace semantics), the documented checkpoint layout used by the 'before' reader. The per-entry GC loop of strata gc/gc-live is transcribed in the harness (strata gccmd* run the real one).",
             "deterministic simulation + crash-point enumeration over each operation's request sequence x DB-order rotations",
             "DESIGN.md §3 C17"),
     "C06": ("exploration",
@@ -106,6 +106,22 @@ CLAIMED["C20"] = ("exploration",
     "deterministic simulation (scheduler-ordered parallel workers) + per-key before/after and write-log oracle",
     "DESIGN.md §3 C20")
 
+
+# what later mutation waves added to a check (appended to its level text)
+ADDENDA = {
+    "C01": " A quarter of the runs continue a replay from a stored position (resumed start in a database the rules admit).",
+    "C02": " Further restart kinds: in-process restart after a connection loss, graceful stop, target-reset (the target drops the connections and stays reachable) and target-restart (it then refuses keyspace requests with -LOADING for a drawn stretch of the tool's next start: a refused position scan is an error and a retry, never 'nothing stored'); half of the runs go through the tool's whole start path (real UpdateCheckpoint, SetCheckpoint at the end of a full sync); strata with output filters, chained database maps and two databases.",
+    "C06": " Disk and memory cache; epoch 1 has connection losses of its own, sources that were just started (first snapshot at offset 0), carried positions, and the fault 'source connection lost while the target cannot be reached' (the start-point request and its retries fail, the input gives up and is started again); stratum real-switch asks the real RedisOutput.",
+    "C07": " The run-id stratum (real SetRunId / ResetRunId with connection resets after every request of the move, and a full resync under the id already followed) and the target-restart fault of the crash harness are part of it.",
+    "C08": " Also: rule stale_run_served on the final image (an older run is not served while newer data lie beyond a gap), offsets shortly below powers of ten, alterations applied while the cache is open after a first pass of verifying readers, length alterations of sealed segments, sources without snapshot checksum; under verification 'refused' means an error, not a reader that stalls.",
+    "C10": " A quarter of the incremental runs continue from a stored position; a snapshot stratum applies the rules on the full-sync path.",
+    "C14": " Standalone strata also have target-reset while a unit is in flight, full resync under the same id and fail-over with +CONTINUE; cluster strata (3 nodes) add node stalls, single-connection resets, in-process restarts; the recovery-format switch runs as stratum modeswitch on histories that include those events.",
+    "C16": " Leader events while followers are served (full resync, id switch, cache restart), followers more than 10 MiB behind, channel.verifyCrc drawn per run, lock-park mode; after a leader id switch the follower's copy under the old id is checked at every quiescent point.",
+    "C17": " Also enumerated per operation: from its k-th request on the target is out of memory (denyoom commands refused, deletions and reads served). Strata gccmd* run the real cmd-level collector (also concurrent with a fail-over, or with a source shard that takes no connection), newoutput the tool's whole start path over a chain of fail-overs, modeswitch the bidirectional recovery-format switch on histories produced by the real replay (with crashes, full resyncs and fail-overs).",
+    "C18": " Keys include the empty string and keys whose hash tag stands far behind byte 512; filtered strata; commands whose key position only the target knows.",
+    "C20": " A fifth of the plain runs answer one request with a 'not ready' error (BUSY / LOADING / TRYAGAIN): a replay that stops is judged by what the policies promise about keys that were there before, one that goes on by the whole oracle; the bidirectional stratum has a racing client between probe and transaction.",
+}
+
 NOT_APPLICABLE = {
     "C11": "pure function of a byte string: no schedule, clock, fault, I/O or second party can influence it, so deterministic simulation has nothing to decide (DESIGN.md §4); slot disagreements surface as a by-product in the C10/C18 oracles which compute HASH_SLOT independently",
 }
@@ -121,6 +137,7 @@ def main():
         if pid not in CLAIMED:
             continue
         level, text, note, tech, ref = CLAIMED[pid]
+        text += ADDENDA.get(pid, "")
         checks.append({
             "property_id": pid,
             "quick_cmd": "./check %s quick" % pid,
